@@ -6,6 +6,7 @@ import hashlib
 import json
 import os
 import re
+import shutil
 import subprocess
 import sys
 import time
@@ -211,14 +212,11 @@ def _run_coqc(path):
 def run_cases(pid, files, jobs=16):
     """files: list of (name, coq_text).  Writes build/<pid>/<name>.v, runs coqc on
     each in parallel; returns {name: (rc, stdout, stderr)}."""
-    d = os.path.join(BUILD, pid)
+    # one scratch directory per process, so that two runs of the same check (e.g. a
+    # seeded-change trial next to a normal run) never touch each other's files
+    d = os.path.join(BUILD, f"{pid}.{os.getpid()}")
+    shutil.rmtree(d, ignore_errors=True)
     os.makedirs(d, exist_ok=True)
-    for f in os.listdir(d):
-        if f.endswith((".v", ".vo", ".vok", ".vos", ".glob", ".aux")):
-            try:
-                os.remove(os.path.join(d, f))
-            except OSError:
-                pass
     paths = []
     for name, text in files:
         p = os.path.join(d, name + ".v")
@@ -230,6 +228,8 @@ def run_cases(pid, files, jobs=16):
         for (name, _), res in zip(paths, ex.map(_run_coqc, [p for _, p in paths])):
             _, rc, so, se, dt = res
             out[name] = (rc, so, se)
+    if all(rc == 0 for rc, _, _ in out.values()) and not os.environ.get("QV_KEEP_CASES"):
+        shutil.rmtree(d, ignore_errors=True)
     return out
 
 
@@ -335,6 +335,11 @@ class Check:
         for finding, what in self.known_hits:
             print(f"KNOWN-FINDING: property={self.pid} {finding.get('id','')} {what}")
         if not self.violations:
+            rd0 = os.path.join(BUILD, "replay")
+            if os.path.isdir(rd0):
+                for old in os.listdir(rd0):
+                    if old.startswith(self.pid + "_"):
+                        os.remove(os.path.join(rd0, old))
             print(f"OK property={self.pid} tier={self.tier} wall={wall:.1f}s "
                   f"obligations={cov.get('obligations')} discharged={cov.get('discharged')} "
                   f"cases={cov.get('evaluations')}")
